@@ -217,6 +217,14 @@ static void drive(Ctx &c, int fr, const std::vector<uint8_t> &input, size_t pref
                  hex(got.data(), got.size(), 32).c_str(), want.size(), hex(want.data(), want.size(), 32).c_str());
       }
       idle = 0;
+      // reset between frames (source = 0, sourcelen = 0: what connectionEncoding() does before it keeps decoding the same
+      // queue): the delivered message is still pending, decoding must go on with the next frame. No draw: decided by state.
+      if (sched != 0 && fr != FCommand && (delivered + st.curr) % 4 == 0) {
+        int q = dec(&st, 0, 0);
+        VP_CHECK(c, q == 0, "reset-result", "%s: reset call returned %d", kName[fr], q);
+        c.label("op:reset-between-frames");
+        c.logf("reset -> %d curr=%zu pos=%zu len=%zu msg=%zd", q, st.curr, st.data.pos, st.data.len, (ssize_t)st.data.msg);
+      }
       continue;
     }
     if (rc == 0) {
